@@ -103,6 +103,9 @@ func valueQueries(fr *FuncRun, key string, v Value) []query {
 func modelValues(fr *FuncRun, o *Oblig, qs []query) (map[string]string, string) {
 	termMu.Lock()
 	assumes := fr.VC.Assumes[:o.NAssume]
+	if o.Hyps != nil {
+		assumes = o.Hyps
+	}
 	p := NewPrinter()
 	roots := append(append([]*Term(nil), assumes...), o.Cond)
 	for _, q := range qs {
